@@ -18,7 +18,10 @@ def main(tier):
             "and of the validated domain (R-ATTRVALUES: 'Emit'/'Skip'); emission and decoding lists are built only in "
             "loops over fields_in_dependency_order (R-DEPORDER) and the order used for cycle detection is the order "
             "used for emission (R-DEPTWIN); every method the text templates call on a field view "
-            "(UpdateFromTextStream, WriteToTextStream, IsAggregate, Ok) exists on every view kind (R-IFACE). "
+            "(UpdateFromTextStream, WriteToTextStream, IsAggregate, Ok) exists on every view kind (R-IFACE); the overflow "
+            "guard of the text integer decoder depends on every operand of the accumulating update it protects — "
+            "accumulator, base and the incoming digit — a necessary condition for rejecting exactly the overflowing "
+            "numbers (R-GUARDDEPS). "
             "Not decided: integer text encode/decode inverse, whole-structure round trip, option combinations."))
     r, s = cx.repo, cx.schema
     sctl = S.control(r)
@@ -27,4 +30,5 @@ def main(tier):
     chk.run("R-DEPORDER", B.deporder, r, floor=3)
     chk.run("R-DEPTWIN", P.deptwin, r, s, cx.sites, floor=2)
     chk.run("R-IFACE", C.iface, cx.cpp, cx.templates, floor=80)
+    chk.run("R-GUARDDEPS", C.guarddeps, cx.cpp, floor=2)
     return chk.finish()
